@@ -31,6 +31,9 @@ RULE = (
     " order, stray/duplicate .cfi_endproc and truncated fixed-width"
     " operands among the ill-formed classes."
 )
+RULE += (
+    " 15% of the escape-carrying cases are evaluated a second time as a module of another pointer size in the same process; PE modules (no DWARF return column): errors in front of .cfi_startproc stay errors, procedures are 'unsupported'."
+)
 ASSUMPTIONS = [
     ".cfi_rel_offset follows the semantics the repository documents (offset rule + delta)",
     "escaped instructions outside the evaluator's supported subset are 'unsupported' (NotImplementedError) by design: both sides must agree",
